@@ -92,7 +92,9 @@ func genC23(seed uint64) *Plan {
 	}
 	badOpen := func() *OpenSpec {
 		o := openSpecFor(pc)
-		switch r.Intn(3) {
+		switch r.Intn(4) {
+		case 3:
+			o.HoldTime = uint16(1 + r.Intn(2)) // RFC 4271 4.2: hold times of one or two seconds must be rejected
 		case 0:
 			o.AS = pc.AS + 7
 		case 1:
